@@ -199,6 +199,29 @@ def parse_text(text: str, sel: Any = None, newline: Any = "\n") -> Any:
     return with_selection(sel, lambda w: Chart.from_file(fp, want_tracks=w))
 
 
+class _Filler:
+    """Small instance with a __dict__ (the size class of most of the package's objects)."""
+
+    def __init__(self, i: int) -> None:
+        self.i = i
+
+
+def heap_shift(j: int) -> list[Any]:
+    """Deterministic perturbation of the allocator INSIDE a run: ``j`` live small objects of the
+    usual size classes.  Which freed address the next allocation receives (hence whether an
+    id()-keyed memo in the code under test sees a recycled address) shifts with ``j``; histories
+    that free objects and build new ones try several ``j`` so that the outcome does not hinge on
+    the heap state the run happened to inherit."""
+    keep: list[Any] = []
+    for i in range(j):
+        keep.append(_Filler(i))
+        keep.append((i, i, i))
+        keep.append([i])
+        keep.append({"k": i})
+        keep.append(str(i) * 3)
+    return keep
+
+
 DOCUMENTED_ERRORS = ("ValueError", "RegexNotMatchError", "MissingRequiredField")
 
 
